@@ -200,7 +200,8 @@ package objects
 
 // magnitude assumption (unchecked, reported): quantities that enter a node ledger are far from the int64 limits, so
 // the saturating primitives (proved in C18 over the whole range) act as exact integer arithmetic on three-term sums
-//@ spec mag(r *resources.Resource) bool = forall t Key :: rv(r, t) > -2305843009213693952 && rv(r, t) < 2305843009213693952
+//@ spec mag(r *resources.Resource) bool = forall t Key :: rv(r, t) > -576460752303423488 && rv(r, t) < 576460752303423488
+//@ spec mag2(r *resources.Resource) bool = forall t Key :: rv(r, t) > -1152921504606846976 && rv(r, t) < 1152921504606846976
 //@ global forall n *Node :: mag(n.totalResource) && mag(n.allocatedResource) && mag(n.occupiedResource)
 //@ global forall a *Allocation :: mag(a.allocatedResource)
 
@@ -226,14 +227,15 @@ package objects
 
 //@ func (sn *Node) refreshAvailableResource()
 //@   props C01
-//@   requires inv_own(sn)
+//@   holds inv_own(sn)
 //@   assigns sn.availableResource
 //@   ensures inv_own(sn) && inv_L1(sn)
 //@   ensures[frame] sn.totalResource == old(sn.totalResource) && sn.allocatedResource == old(sn.allocatedResource) && sn.occupiedResource == old(sn.occupiedResource) && unch(sn.totalResource) && unch(sn.allocatedResource) && unch(sn.occupiedResource)
 
 //@ func (sn *Node) UpdateAllocatedResource(delta *resources.Resource)
 //@   props C01
-//@   requires inv(sn) && sepN(sn, delta) && mag(delta)
+//@   holds inv(sn)
+//@   requires sepN(sn, delta) && mag2(delta)
 //@   assigns sn.availableResource, sn.allocatedResource.Resources[*]
 //@   ensures inv(sn)
 //@   ensures[booked] forall t Key :: rv(sn.allocatedResource, t) == old(rv(sn.allocatedResource, t)) + rv(delta, t)
@@ -241,7 +243,8 @@ package objects
 
 //@ func (sn *Node) addAllocationInternal(alloc *Allocation, force bool) (ok bool)
 //@   props C01 C03
-//@   requires inv(sn) && (alloc != nil ==> okR(alloc.allocatedResource) && sepN(sn, alloc.allocatedResource))
+//@   holds inv(sn)
+//@   requires (alloc != nil ==> okR(alloc.allocatedResource) && sepN(sn, alloc.allocatedResource))
 //@   assigns sn.allocations[*], sn.occupiedResource, sn.allocatedResource.Resources[*], sn.availableResource.Resources[*]
 //@   ensures inv(sn)
 //@   ensures[fits] ok && !force ==> (forall t Key :: has(alloc.allocatedResource, t) ==> rv(alloc.allocatedResource, t) <= posv(old(rv(sn.availableResource, t))))
@@ -257,7 +260,8 @@ package objects
 
 //@ func (sn *Node) TryAddAllocation(alloc *Allocation) (ok bool)
 //@   props C01
-//@   requires inv(sn) && (alloc != nil ==> okR(alloc.allocatedResource) && sepN(sn, alloc.allocatedResource))
+//@   holds inv(sn)
+//@   requires (alloc != nil ==> okR(alloc.allocatedResource) && sepN(sn, alloc.allocatedResource))
 //@   assigns sn.allocations[*], sn.occupiedResource, sn.allocatedResource.Resources[*], sn.availableResource.Resources[*]
 //@   ensures inv(sn)
 //@   ensures[fits] ok ==> (forall t Key :: has(alloc.allocatedResource, t) ==> rv(alloc.allocatedResource, t) <= posv(old(rv(sn.availableResource, t))))
@@ -272,7 +276,8 @@ package objects
 
 //@ func (sn *Node) AddAllocation(alloc *Allocation)
 //@   props C01 C03
-//@   requires inv(sn) && (alloc != nil ==> okR(alloc.allocatedResource) && sepN(sn, alloc.allocatedResource))
+//@   holds inv(sn)
+//@   requires (alloc != nil ==> okR(alloc.allocatedResource) && sepN(sn, alloc.allocatedResource))
 //@   assigns sn.allocations[*], sn.occupiedResource, sn.allocatedResource.Resources[*], sn.availableResource.Resources[*]
 //@   ensures inv(sn)
 //@   ensures[booked] alloc != nil ==> (forall t Key :: rv(sn.availableResource, t) == old(rv(sn.availableResource, t)) - rv(alloc.allocatedResource, t))
@@ -280,7 +285,8 @@ package objects
 // capacity change (RM forced): the ledger identity is re-established; returns the delta
 //@ func (sn *Node) SetCapacity(newCapacity *resources.Resource) (delta *resources.Resource)
 //@   props C01
-//@   requires inv(sn) && okR(newCapacity) && sepN(sn, newCapacity) && mag(newCapacity)
+//@   holds inv(sn)
+//@   requires okR(newCapacity) && sepN(sn, newCapacity) && mag(newCapacity)
 //@   assigns sn.totalResource, sn.availableResource, newCapacity.Resources[*]
 //@   ensures inv(sn)
 //@   ensures[capacity] forall t Key :: rv(sn.totalResource, t) == old(rv(newCapacity, t))
@@ -289,7 +295,8 @@ package objects
 
 //@ func (sn *Node) SetOccupiedResource(occupiedResource *resources.Resource)
 //@   props C01
-//@   requires inv(sn) && okR(occupiedResource) && sepN(sn, occupiedResource) && mag(occupiedResource)
+//@   holds inv(sn)
+//@   requires okR(occupiedResource) && sepN(sn, occupiedResource) && mag(occupiedResource)
 //@   assigns sn.occupiedResource, sn.availableResource
 //@   ensures inv(sn)
 //@   ensures[occupied] forall t Key :: rv(sn.occupiedResource, t) == rv(occupiedResource, t)
@@ -297,7 +304,7 @@ package objects
 
 //@ func (sn *Node) RemoveAllocation(allocationKey string) (removed *Allocation)
 //@   props C01 C03
-//@   requires inv(sn)
+//@   holds inv(sn)
 //@   assigns sn.allocations[*], sn.occupiedResource, sn.allocatedResource.Resources[*], sn.availableResource.Resources[*]
 //@   ensures inv(sn)
 //@   ensures[found] removed == old(sn.allocations[allocationKey])
@@ -310,7 +317,8 @@ package objects
 //@ func (sn *Node) ReplaceAllocation(allocationKey string, replace *Allocation, delta *resources.Resource)
 //@   props C01 C06
 //@   mode nopanic=off
-//@   requires inv(sn) && sepN(sn, delta) && mag(delta)
+//@   holds inv(sn)
+//@   requires sepN(sn, delta) && mag2(delta)
 //@   assigns sn.allocations[*], sn.allocatedResource.Resources[*], sn.availableResource.Resources[*], replace.placeholderCreateTime, replace.placeholderUsed
 //@   ensures inv(sn)
 //@   ensures[booked] forall t Key :: rv(sn.allocatedResource, t) == old(rv(sn.allocatedResource, t)) + rv(delta, t) && rv(sn.availableResource, t) == old(rv(sn.availableResource, t)) - rv(delta, t)
@@ -319,7 +327,8 @@ package objects
 //@ func (sn *Node) UpdateForeignAllocation(alloc *Allocation) (prev *Allocation)
 //@   props C01
 //@   mode nopanic=off
-//@   requires inv(sn) && okR(alloc.allocatedResource) && sepN(sn, alloc.allocatedResource) && mag(alloc.allocatedResource)
+//@   holds inv(sn)
+//@   requires okR(alloc.allocatedResource) && sepN(sn, alloc.allocatedResource) && mag(alloc.allocatedResource)
 //@   assigns sn.allocations[*], sn.occupiedResource.Resources[*], sn.availableResource
 //@   ensures inv(sn)
 //@   ensures[found] prev == old(sn.allocations[alloc.allocationKey])
@@ -434,7 +443,7 @@ package objects
 //@ func (sn *Node) Reserve(app *Application, ask *Allocation) (err error)
 //@   props C09
 //@   mode nopanic=off
-//@   requires inv_resv(sn) && inv_exclusive(sn)
+//@   holds inv_resv(sn) && inv_exclusive(sn)
 //@   assigns sn.reservations[*]
 //@   ensures inv_resv(sn) && inv_exclusive(sn)
 //@   ensures[made] err == nil ==> sn.reservations[ask.allocationKey] != nil && sn.reservations[ask.allocationKey].alloc == ask && sn.reservations[ask.allocationKey].app == app && sn.reservations[ask.allocationKey].node == sn
@@ -449,7 +458,7 @@ package objects
 //@ func (sn *Node) unReserve(alloc *Allocation) (n int)
 //@   props C09
 //@   mode nopanic=off
-//@   requires inv_resv(sn) && inv_exclusive(sn)
+//@   holds inv_resv(sn) && inv_exclusive(sn)
 //@   assigns sn.reservations[*]
 //@   ensures inv_resv(sn) && inv_exclusive(sn)
 //@   ensures[count] n == ((alloc != nil && old(alloc.allocationKey in sn.reservations)) ? 1 : 0)
@@ -802,3 +811,10 @@ package objects
 //@   holds forall k string :: (k in sa.placeholderData) ==> sa.placeholderData[k] != nil
 //@   at[tracked] fieldaddr PlaceholderData.TimedOut#*: assert base != nil
 //@   at[releaseall] call objects.Application.removeAsksInternal#1: assert arg1 == ""
+
+// a new node starts with the ledger identity in place
+//@ func NewNode(proto *si.NodeInfo) (sn *Node)
+//@   props C01
+//@   mode nopanic=off
+//@   ensures proto == nil ==> sn == nil
+//@   ensures[inv] sn != nil ==> fresh(sn) && inv_own(sn) && inv_L1(sn) && inv_maps(sn) && inv_resv(sn) && inv_exclusive(sn)
